@@ -321,7 +321,9 @@ func (p *Planner) newInvertableTypeJoin(
 
 	skipChild := false
 	for _, field := range parent.selectReq.Fields {
-		if field.GetName() == subSelect.Name {
+		// several joins may target the same relation field (for example one added for a filter and
+		// one hosting an aggregate with its own filter): look at this join's own select only
+		if field.GetName() == subSelect.Name && field.GetIndex() == subSelect.Index {
 			if childSelect, ok := field.AsSelect(); ok {
 				if childSelect.SkipResolve {
 					skipChild = true
